@@ -21,13 +21,22 @@ import tempfile
 HERE = os.path.dirname(os.path.dirname(os.path.abspath(__file__)))
 sys.path.insert(0, HERE)
 sys.path.insert(0, os.path.join(HERE, "tools"))
-SEED = "/tmp/seed"
+SEED = os.environ.get("SEED_DIR", "/tmp/seed")
+ROUND = os.environ.get("SEED_ROUND", "r3")            # r3 | r5
+CONFIRM = os.environ.get("SEED_CONFIRM", "/tmp/r3_confirm.txt")
+# round 5: checks that alarmed when the refactoring was first run (before the rules were generalised), for the record
+FIRST_CONTACT_R5 = {
+    "C01-A": "C01 C15", "C02-B": "C06", "C04-A": "C04 C16", "C05-A": "C05 C16", "C06-B": "C06", "C07-A": "C06 C07", "C07-B": "C07",
+    "C08-A": "C02 C03 C06 C08", "C08-B": "C20", "C09-A": "C08", "C09-B": "C01", "C10-A": "C02 C10", "C11-A": "C11", "C12-A": "C20",
+    "C12-B": "C12", "C13-A": "C14", "C14-A": "C13 C14", "C15-B": "C01", "C17-B": "C06 C17", "C19-A": "C14", "C19-B": "C13", "C20-A": "C20",
+    "C20-B": "C06 C12 C20",
+}
 PROPS = ["C%02d" % i for i in range(1, 21)]
 
 
 def confirmations():
     out = {}
-    p = "/tmp/r3_confirm.txt"
+    p = CONFIRM
     if os.path.isfile(p):
         for line in open(p):
             m = re.match(r"(C\d\d)-([ABC]) demo_clean=(\d+) demo_patched=(\d+) suite: (.*)", line.strip())
@@ -68,7 +77,7 @@ def main():
             continue
         for x in "ABC":
             src = os.path.join(SEED, d, "out", x)
-            sid = "%s-r3%s" % (d, x)
+            sid = "%s-%s%s" % (d, ROUND, x)
             if only and sid not in only and d not in only:
                 continue
             if not os.path.isfile(os.path.join(src, "patch.diff")):
@@ -101,6 +110,9 @@ def main():
                                     "demo_exit_clean": c[0], "demo_exit_patched": c[1], "suite_with_patch": c[2]},
                 "clean_for": clean, "undecided_for": und, "false_alarms_now": alarm,
             }
+            if ROUND == "r5":
+                meta["author"] = meta["author"].replace("a behaviour-preserving refactoring", "a larger behaviour-preserving refactoring (several functions or a whole class reshaped)")
+                meta["false_alarms_at_first_contact"] = FIRST_CONTACT_R5.get("%s-%s" % (d, x), "").split()
             json.dump(meta, open(os.path.join(dst, "meta.json"), "w"), indent=1, sort_keys=True)
             print("%s: clean for %d, undecided for %s%s" % (sid, len(clean), sorted(und) or "-", ("  FALSE ALARMS: %s" % sorted(alarm)) if alarm else ""))
 
